@@ -45,8 +45,9 @@ Record state := {
   reports : list report      (* most recent first *)
 }.
 
+(* count_calls starts at nsol: check_solns() makes one cl1 call per solution before the search *)
 Definition init : state :=
-  {| good := []; bad := []; minimal := []; calls := 0; first := true; reports := [] |}.
+  {| good := []; bad := []; minimal := []; calls := Z.of_nat nsol; first := true; reports := [] |}.
 
 Definition superset_minimal (st : state) (bits : Z) : bool := existsb (sup_min_test bits) (minimal st).
 Definition subset_bad (st : state) (bits : Z) : bool := existsb (sub_bad_test bits) (bad st).
